@@ -109,3 +109,255 @@ Fixpoint b_run (hsh : Z -> Z -> Z * Z) (m k : Z) (s : Z -> bloom) (ops : list b_
 Definition ok_bloom (c : Z * Z * list (Z * Z * (Z * Z)) * list b_op * list b_obs) : bool :=
   let '(m, k, t, ops, obs) := c in
   list_eqb b_obs_eqb (b_run (tbl2 t) m k (fun _ => bloom_empty) ops) obs.
+
+(* ------------------------------------------------------------------ *)
+(** * Count-Min sketch (count_min_sketch.py) *)
+
+(** [_counters[row][col]] as a total function (0 outside the array). *)
+Record cms := { c_cnt : Z -> Z -> Z; c_total : Z }.
+Definition cms_empty : cms := {| c_cnt := fun _ _ => 0; c_total := 0 |}.
+
+(** [hc item row] = the 64-bit word that [_hash] reduces modulo [width]
+    (sha256 of builtin [hash(item)] xor the row seed). *)
+Definition c_col (hc : Z -> Z -> Z) (w x r : Z) : Z := hc x r mod w.
+
+Definition c_add (hc : Z -> Z -> Z) (w d : Z) (st : cms) (x c : Z) : cms * bool :=
+  if c <? 0 then (st, true)
+  else if c =? 0 then (st, false)
+  else ({| c_cnt := fun r col =>
+             if (0 <=? r) && (r <? d) && (col =? c_col hc w x r)
+             then c_cnt st r col + c else c_cnt st r col;
+           c_total := c_total st + c |}, false).
+
+Definition zmin_list (l : list Z) : Z :=
+  match l with [] => 0 | a :: r => fold_left Z.min r a end.
+
+(** [estimate]: minimum over the rows (depth >= 1 is enforced by __init__). *)
+Definition c_est (hc : Z -> Z -> Z) (w d : Z) (st : cms) (x : Z) : Z :=
+  zmin_list (map (fun r => c_cnt st r (c_col hc w x r)) (zrange d)).
+
+Definition c_merge (a b : cms) : cms :=
+  {| c_cnt := fun r col => c_cnt a r col + c_cnt b r col; c_total := c_total a + c_total b |}.
+
+Definition c_sketch (hc : Z -> Z -> Z) (w d : Z) (s : list (Z * Z)) (st : cms) : cms :=
+  fold_left (fun st xc => fst (c_add hc w d st (fst xc) (snd xc))) s st.
+
+(** True frequency of [x] in a stream of [(item, count)] adds (adds with a
+    non-positive count are rejected or ignored by every sketch). *)
+Fixpoint true_count (x : Z) (s : list (Z * Z)) : Z :=
+  match s with
+  | [] => 0
+  | (y, c) :: r => (if (y =? x) && (0 <? c) then c else 0) + true_count x r
+  end.
+
+Inductive c_op :=
+| CAdd (slot x c : Z)
+| CMerge (dst src : Z)
+| CEst (slot x : Z).
+(** observation: counters (rows of columns), total, raised, estimate *)
+Definition c_obs := (list (list Z) * Z * bool * Z)%type.
+
+Definition zget' (m : list (Z * Z)) (k : Z) : Z := zget k m.
+Definition tbl1 (t : list (Z * Z * Z)) (x i : Z) : Z :=
+  match find (fun e => (fst (fst e) =? x) && (snd (fst e) =? i)) t with
+  | Some e => snd e
+  | None => 0
+  end.
+
+Definition c_view (w d : Z) (st : cms) (raised : bool) (est : Z) : c_obs :=
+  (map (fun r => map (fun col => c_cnt st r col) (zrange w)) (zrange d), c_total st, raised, est).
+Definition c_obs_eqb (a b : c_obs) : bool :=
+  let '(a1, a2, a3, a4) := a in let '(b1, b2, b3, b4) := b in
+  list_eqb (list_eqb Z.eqb) a1 b1 && (a2 =? b2) && Bool.eqb a3 b3 && (a4 =? b4).
+
+Definition c_step (hc : Z -> Z -> Z) (w d : Z) (s : Z -> cms) (o : c_op) : (Z -> cms) * c_obs :=
+  match o with
+  | CAdd sl x c => let '(st, r) := c_add hc w d (s sl) x c in (upd s sl st, c_view w d st r 0)
+  | CMerge ds sr => let st := c_merge (s ds) (s sr) in (upd s ds st, c_view w d st false 0)
+  | CEst sl x => (s, c_view w d (s sl) false (c_est hc w d (s sl) x))
+  end.
+Fixpoint c_run (hc : Z -> Z -> Z) (w d : Z) (s : Z -> cms) (ops : list c_op) : list c_obs :=
+  match ops with
+  | [] => []
+  | o :: r => let '(s', ob) := c_step hc w d s o in ob :: c_run hc w d s' r
+  end.
+Definition ok_cms (c : Z * Z * list (Z * Z * Z) * list c_op * list c_obs) : bool :=
+  let '(w, d, t, ops, obs) := c in
+  list_eqb c_obs_eqb (c_run (tbl1 t) w d (fun _ => cms_empty) ops) obs.
+
+(* ------------------------------------------------------------------ *)
+(** * HyperLogLog (hyperloglog.py) — registers, add, merge *)
+
+Record hll := { h_reg : Z -> Z; h_total : Z }.
+Definition hll_empty : hll := {| h_reg := fun _ => 0; h_total := 0 |}.
+
+(** [_count_leading_zeros(value, max_bits)]: scans bits max_bits-1 .. 0. *)
+Definition clz (v bits : Z) : Z :=
+  let v' := v mod 2 ^ bits in
+  if v' =? 0 then bits else bits - 1 - Z.log2 v'.
+
+(** [hh item] = first 8 bytes of sha256(pack(seed) ++ repr(item)). *)
+Definition h_idx (hh : Z -> Z) (p x : Z) : Z := Z.shiftr (hh x) (64 - p).
+Definition h_run (hh : Z -> Z) (p x : Z) : Z :=
+  clz (Z.land (hh x) (Z.shiftl 1 (64 - p) - 1)) (64 - p) + 1.
+
+Definition h_add (hh : Z -> Z) (p : Z) (st : hll) (x c : Z) : hll * bool :=
+  if c <? 0 then (st, true)
+  else if c =? 0 then (st, false)
+  else
+    let i := h_idx hh p x in
+    ({| h_reg := upd (h_reg st) i (Z.max (h_reg st i) (h_run hh p x)); h_total := h_total st + c |}, false).
+
+(** [merge]: maximum of each of the 2^p registers; seeds are not compared. *)
+Definition h_merge (p : Z) (a b : hll) : hll :=
+  {| h_reg := fun i => if (0 <=? i) && (i <? 2 ^ p) then Z.max (h_reg a i) (h_reg b i) else h_reg a i;
+     h_total := h_total a + h_total b |}.
+
+Definition h_sketch (hh : Z -> Z) (p : Z) (s : list (Z * Z)) (st : hll) : hll :=
+  fold_left (fun st xc => fst (h_add hh p st (fst xc) (snd xc))) s st.
+
+Inductive h_op :=
+| HAdd (slot x c : Z)
+| HMerge (dst src : Z).
+Definition h_obs := (list Z * Z * bool)%type.
+Definition h_view (p : Z) (st : hll) (raised : bool) : h_obs :=
+  (map (h_reg st) (zrange (2 ^ p)), h_total st, raised).
+Definition h_obs_eqb (a b : h_obs) : bool :=
+  let '(a1, a2, a3) := a in let '(b1, b2, b3) := b in
+  list_eqb Z.eqb a1 b1 && (a2 =? b2) && Bool.eqb a3 b3.
+(** [hh seed item]; [sd slot] = the seed the slot's sketch was built with.
+    [merge] raises ValueError (state unchanged) when the seeds differ. *)
+Definition h_step (hh : Z -> Z -> Z) (sd : Z -> Z) (p : Z) (s : Z -> hll) (o : h_op) : (Z -> hll) * h_obs :=
+  match o with
+  | HAdd sl x c => let '(st, r) := h_add (hh (sd sl)) p (s sl) x c in (upd s sl st, h_view p st r)
+  | HMerge ds sr =>
+      if sd ds =? sd sr
+      then let st := h_merge p (s ds) (s sr) in (upd s ds st, h_view p st false)
+      else (s, h_view p (s ds) true)
+  end.
+Fixpoint h_runops (hh : Z -> Z -> Z) (sd : Z -> Z) (p : Z) (s : Z -> hll) (ops : list h_op) : list h_obs :=
+  match ops with
+  | [] => []
+  | o :: r => let '(s', ob) := h_step hh sd p s o in ob :: h_runops hh sd p s' r
+  end.
+(** case = (precision, slot seeds, digest table keyed by (seed, item), schedule, observations) *)
+Definition ok_hll (c : Z * list (Z * Z) * list (Z * Z * Z) * list h_op * list h_obs) : bool :=
+  let '(p, seeds, t, ops, obs) := c in
+  list_eqb h_obs_eqb (h_runops (tbl1 t) (zget' seeds) p (fun _ => hll_empty) ops) obs.
+
+(* ------------------------------------------------------------------ *)
+(** * TopK, space-saving (topk.py) *)
+
+(** [_counters]: dict item -> (count, error) in insertion order. *)
+Definition tk_entry := (Z * (Z * Z))%type.     (* item, (count, error) *)
+Record topk := { t_cnt : list tk_entry; t_total : Z }.
+Definition topk_empty : topk := {| t_cnt := []; t_total := 0 |}.
+
+Definition e_count (e : tk_entry) : Z := fst (snd e).
+Definition e_error (e : tk_entry) : Z := snd (snd e).
+
+Fixpoint tk_find (x : Z) (l : list tk_entry) : option (Z * Z) :=
+  match l with
+  | [] => None
+  | (y, ce) :: r => if y =? x then Some ce else tk_find x r
+  end.
+(** [self._counters[item].count += count] (position in the dict unchanged). *)
+Fixpoint tk_incr (x c : Z) (l : list tk_entry) : list tk_entry :=
+  match l with
+  | [] => []
+  | (y, (n, e)) :: r => if y =? x then (y, (n + c, e)) :: r else (y, (n, e)) :: tk_incr x c r
+  end.
+(** [min(values, key=count)]: the first minimal entry in insertion order. *)
+Fixpoint tk_min (l : list tk_entry) : option tk_entry :=
+  match l with
+  | [] => None
+  | e :: r =>
+      match tk_min r with
+      | None => Some e
+      | Some e' => if e_count e' <? e_count e then Some e' else Some e
+      end
+  end.
+Fixpoint tk_del (x : Z) (l : list tk_entry) : list tk_entry :=
+  match l with
+  | [] => []
+  | (y, ce) :: r => if y =? x then r else (y, ce) :: tk_del x r
+  end.
+
+Definition tk_add (k : Z) (st : topk) (x c : Z) : topk * bool :=
+  if c <? 0 then (st, true)
+  else if c =? 0 then (st, false)
+  else
+    let tot := t_total st + c in
+    match tk_find x (t_cnt st) with
+    | Some _ => ({| t_cnt := tk_incr x c (t_cnt st); t_total := tot |}, false)
+    | None =>
+        if Z.of_nat (length (t_cnt st)) <? k
+        then ({| t_cnt := t_cnt st ++ [(x, (c, 0))]; t_total := tot |}, false)
+        else
+          match tk_min (t_cnt st) with
+          | None => (* k <= 0 cannot happen (constructor) *) ({| t_cnt := [(x, (c, 0))]; t_total := tot |}, false)
+          | Some (y, (mn, _)) =>
+              ({| t_cnt := tk_del y (t_cnt st) ++ [(x, (mn + c, mn))]; t_total := tot |}, false)
+          end
+    end.
+
+Definition tk_sketch (k : Z) (s : list (Z * Z)) (st : topk) : topk :=
+  fold_left (fun st xc => fst (tk_add k st (fst xc) (snd xc))) s st.
+
+Definition tk_estimate (st : topk) (x : Z) : Z :=
+  match tk_find x (t_cnt st) with Some (n, _) => n | None => 0 end.
+(** [max_error()] *)
+Definition tk_max_error (st : topk) : Z :=
+  match tk_min (t_cnt st) with Some e => e_count e | None => 0 end.
+(** [estimate_with_error(item)] -> (count, error) *)
+Definition tk_est_err (st : topk) (x : Z) : Z * Z :=
+  match tk_find x (t_cnt st) with Some ce => ce | None => (0, tk_max_error st) end.
+Definition tk_threshold (k : Z) (st : topk) : Z := t_total st / k.
+
+(** [merge(other)] as written (the add() path evicts; errors are summed). *)
+Definition tk_merge_one (k : Z) (st : topk) (e : tk_entry) : topk :=
+  let '(x, (n, er)) := e in
+  match tk_find x (t_cnt st) with
+  | Some _ =>
+      {| t_cnt := map (fun e' => if fst e' =? x then (x, (e_count e' + n, e_error e' + er)) else e') (t_cnt st);
+         t_total := t_total st |}
+  | None =>
+      let st' := fst (tk_add k st x n) in
+      {| t_cnt := map (fun e' => if fst e' =? x then (x, (e_count e', e_error e' + er)) else e') (t_cnt st');
+         t_total := t_total st' |}
+  end.
+Definition tk_merge (k : Z) (a b : topk) : topk :=
+  let tracked := map fst (t_cnt a) in
+  let st := fold_left (tk_merge_one k) (t_cnt b) a in
+  let added := fold_left Z.add
+      (map (fun e => if existsb (Z.eqb (fst e)) tracked then 0 else e_count e) (t_cnt b)) 0 in
+  {| t_cnt := t_cnt st; t_total := t_total st + (t_total b - added) |}.
+
+Inductive t_op :=
+| TAdd (slot x c : Z)
+| TMerge (dst src : Z)
+| TEst (slot x : Z).
+(** observation: counters in dict order, total, raised, (estimate, error), max_error, threshold *)
+Definition t_obs := (list tk_entry * Z * bool * (Z * Z) * Z * Z)%type.
+Definition entry_eqb (a b : tk_entry) : bool :=
+  (fst a =? fst b) && (e_count a =? e_count b) && (e_error a =? e_error b).
+Definition t_view (k : Z) (st : topk) (raised : bool) (ee : Z * Z) : t_obs :=
+  (t_cnt st, t_total st, raised, ee, tk_max_error st, tk_threshold k st).
+Definition t_obs_eqb (a b : t_obs) : bool :=
+  let '(a1, a2, a3, a4, a5, a6) := a in let '(b1, b2, b3, b4, b5, b6) := b in
+  list_eqb entry_eqb a1 b1 && (a2 =? b2) && Bool.eqb a3 b3 &&
+  (fst a4 =? fst b4) && (snd a4 =? snd b4) && (a5 =? b5) && (a6 =? b6).
+Definition t_step (k : Z) (s : Z -> topk) (o : t_op) : (Z -> topk) * t_obs :=
+  match o with
+  | TAdd sl x c => let '(st, r) := tk_add k (s sl) x c in (upd s sl st, t_view k st r (0, 0))
+  | TMerge ds sr => let st := tk_merge k (s ds) (s sr) in (upd s ds st, t_view k st false (0, 0))
+  | TEst sl x => (s, t_view k (s sl) false (tk_est_err (s sl) x))
+  end.
+Fixpoint t_runops (k : Z) (s : Z -> topk) (ops : list t_op) : list t_obs :=
+  match ops with
+  | [] => []
+  | o :: r => let '(s', ob) := t_step k s o in ob :: t_runops k s' r
+  end.
+Definition ok_topk (c : Z * list t_op * list t_obs) : bool :=
+  let '(k, ops, obs) := c in
+  list_eqb t_obs_eqb (t_runops k (fun _ => topk_empty) ops) obs.
